@@ -60,10 +60,11 @@ def build(ctx):
     ctx.notes.append(f"{len(settings)} settings enumerated")
     t0 = time.time()
     bad = {k: [] for k in ("count", "construct", "decode", "duplicates", "identity", "closure", "inverse", "centro", "sorted", "lookup_full", "lookup_reduced",
-                           "default_choice", "ordered")}
+                           "default_choice", "ordered", "queries_pure")}
     if len(settings) != 530:
         bad["count"].append({"settings": len(settings)})
     ncomp = 0
+    import chmpy.crystal.symmetry_operation as _somod_native
     for num, choice, row in settings:
         tag = f"{num}:{choice}"
         try:
@@ -119,11 +120,33 @@ def build(ctx):
         try:
             red = sg.reduced_symmetry_operations()
             latt = sg.latt
+            # the reduced description is a set of generators: listed in another order (identity last) it expands to the same operation set, without duplicates
+            for perm_name, lst in (("reversed", list(reversed(red))), ("rotated", list(red[1:]) + list(red[:1]))):
+                full2 = _somod_native.expanded_symmetry_list([SymmetryOperation.from_integer_code(int(s.integer_code)) for s in lst], latt)
+                c2 = [int(s.integer_code) for s in full2]
+                if sorted(c2) != sorted(codes):
+                    bad["lookup_reduced"].append({"setting": tag, "latt": latt, "reduced_list_order": perm_name, "expanded": len(c2), "distinct": len(set(c2)), "expected": len(codes)})
+                    break
             back = sgm.SpaceGroup.from_symmetry_operations([SymmetryOperation.from_integer_code(int(s.integer_code)) for s in red], expand_latt=latt)
             if back.international_tables_number != num or sorted(int(s.integer_code) for s in back.symmetry_operations) != sorted(codes):
                 bad["lookup_reduced"].append({"setting": tag, "latt": latt, "n_reduced": len(red), "found": f"{back.international_tables_number}:{back.choice}"})
         except Exception as e:  # noqa
             bad["lookup_reduced"].append({"setting": tag, "exception": repr(e)[:100]})
+        # the queries above leave the setting as it was (the operation list is the group: a query must not edit it)
+        try:
+            after = [int(s.integer_code) for s in sg.symmetry_operations]
+            for q_ in ("latt", "symbol", "crystal_system", "lattice_type", "laue_class", "cif_section", "sym", "symbol_unicode", "symops", "pg"):
+                try:
+                    getattr(sg, q_)
+                except Exception:  # noqa -- whether a query is defined for this setting is not the point here
+                    pass
+            str(sg), repr(sg), len(sg), hash(sg), sg == sg
+            sg.has_hexagonal_rhombohedral_choices(), sg.ordered_symmetry_operations(), sg.reduced_symmetry_operations(), sg.apply_all_symops(np.array([[0.1, 0.2, 0.3]]))
+            again = [int(s.integer_code) for s in sg.symmetry_operations]
+            if after != codes or again != codes:
+                bad["queries_pure"].append({"setting": tag, "operations_before": len(codes), "after_the_queries": len(again)})
+        except Exception as e:  # noqa
+            bad["queries_pure"].append({"setting": tag, "exception": repr(e)[:100]})
     # default-choice redirection
     for num in range(1, 231):
         try:
@@ -148,6 +171,7 @@ def build(ctx):
         "ordered": "ordered_symmetry_operations puts the identity first and keeps the multiset",
         "lookup_full": "from_symmetry_operations(full list) returns a setting with the same number and operation set",
         "lookup_reduced": "from_symmetry_operations(reduced list, expand_latt=latt) returns a setting with the same number and operation set",
+        "queries_pure": "ordered_symmetry_operations, reduced_symmetry_operations, latt, symbol, len, str and the other queries leave symmetry_operations unchanged",
         "default_choice": "SpaceGroup(n) selects the documented default choice for each of the 230 numbers",
     }
     fnmap = {"construct": f_init, "lookup_full": f_from, "lookup_reduced": f_red, "default_choice": f_init}
@@ -286,6 +310,17 @@ def expand_obligations(ctx):
                 tr = LTT[abs(lt)]
                 nin = (len(full) // (2 if lt > 0 else 1)) // (1 + len(tr))          # 2 inputs, or 3 when the identity was appended
                 goals = [z3.BoolVal(nin in (2, 3) and len(full) == nin * (1 + len(tr)) * (2 if lt > 0 else 1))]
+                # the identity is appended exactly when NEITHER input is the identity (an input list that already holds x,y,z -- in any position -- must not get a second one:
+                # the expanded list would hold duplicates and the look-up by operation set would fail)
+                is_id = [z3.And(*([R[k][i][j] == (1 if i == j else 0) for i in range(3) for j in range(3)] + [frac(T[k][i]) == 0 for i in range(3)])) for k in range(2)]
+                # (membership is decided by the packed code, i.e. with the translation rounded to twelfths: "is the identity" for the list means rotation 1 and every
+                # translation component within 1/24 of an integer)
+                near_id = [z3.And(*([R[k][i][j] == (1 if i == j else 0) for i in range(3) for j in range(3)]
+                                    + [z3.Or(frac(T[k][i]) <= z3.Q(1, 24), frac(T[k][i]) >= z3.Q(23, 24)) for i in range(3)])) for k in range(2)]
+                if nin == 3:
+                    goals.append(z3.And(z3.Not(is_id[0]), z3.Not(is_id[1])))
+                elif nin == 2:
+                    goals.append(z3.Or(near_id[0], near_id[1]))
                 if nin in (2, 3):
                     base = []
                     for k in range(nin):
